@@ -151,11 +151,10 @@ type failSpec struct {
 }
 
 func codeOf(s string) codes.Code {
-	switch s {
-	case "Internal":
-		return codes.Internal
-	case "Unavailable":
-		return codes.Unavailable
+	for c := codes.Canceled; c <= codes.Unauthenticated; c++ {
+		if c.String() == s {
+			return c
+		}
 	}
 	ev.HarnessError("unknown code %q", s)
 	return codes.OK
@@ -605,7 +604,10 @@ func equalStrings(a, b []string) bool {
 func failSpecs(k int) [][]failSpec {
 	var out [][]failSpec
 	for b := 0; b < k; b++ {
-		out = append(out, []failSpec{{b, "Internal"}}, []failSpec{{b, "Unavailable"}})
+		// a single failing shard: every status code a backend can answer with
+		for c := codes.Canceled; c <= codes.Unauthenticated; c++ {
+			out = append(out, []failSpec{{b, c.String()}})
+		}
 	}
 	for a := 0; a < k; a++ {
 		for b := 0; b < k; b++ {
